@@ -37,6 +37,10 @@ func toChannelSyncMsg(protoEnvMsg *Envelope_ChannelSyncMsg) (msg *client.Channel
 		msg.CurrentTX.Sigs[i] = make([]byte, len(protoMsg.GetCurrentTx().GetSigs()[i]))
 		copy(msg.CurrentTX.Sigs[i], protoMsg.GetCurrentTx().GetSigs()[i])
 	}
+	// An empty transaction has no state.
+	if protoMsg.GetCurrentTx().GetState() == nil {
+		return msg, nil
+	}
 	msg.CurrentTX.State, err = ToState(protoMsg.GetCurrentTx().GetState())
 	return msg, err
 }
@@ -51,6 +55,10 @@ func fromChannelSyncMsg(msg *client.ChannelSyncMsg) (_ *Envelope_ChannelSyncMsg,
 	for i := range msg.CurrentTX.Sigs {
 		protoMsg.CurrentTx.Sigs[i] = make([]byte, len(msg.CurrentTX.Sigs[i]))
 		copy(protoMsg.GetCurrentTx().GetSigs()[i], msg.CurrentTX.Sigs[i])
+	}
+	// An empty transaction has no state.
+	if msg.CurrentTX.State == nil {
+		return &Envelope_ChannelSyncMsg{protoMsg}, nil
 	}
 	protoMsg.CurrentTx.State, err = FromState(msg.CurrentTX.State)
 	return &Envelope_ChannelSyncMsg{protoMsg}, err
